@@ -19,19 +19,25 @@
 (*                                            printed artifact for member  *)
 (*                                            k of a scaling family whose  *)
 (*                                            source length is linear in k *)
+(*   [ev |-> "time", key |-> family, nth |-> k, size]  the compile time of  *)
+(*                                            member k in ms (floored at   *)
+(*                                            100 ms by the driver)        *)
 (* Complexity clause ("no super-polynomial blow-up"): within a family the  *)
 (* sizes of consecutive members k, k+1 (k >= 8) must not *all* grow by a   *)
 (* factor of 1.7 or more - a polynomial of degree <= 4 has ratios below    *)
-(* (1 + 1/8)^4 = 1.6 there, an exponential does not.                       *)
+(* (1 + 1/8)^4 = 1.6 there, an exponential does not.  Compile times carry a *)
+(* fixed overhead and noise, so for them only the tail counts: the three   *)
+(* largest consecutive pairs all grow by 1.7 or more and the largest       *)
+(* member takes at least a second.                                         *)
 (***************************************************************************)
 EXTENDS Integers, Sequences, TLC, Json, IOUtils
 
 Cases == ndJsonDeserialize(IOEnv.CASES)
-VARIABLES t, l, art, first, sizes, verdict, why
-vars == <<t, l, art, first, sizes, verdict, why>>
+VARIABLES t, l, art, first, sizes, timed, verdict, why
+vars == <<t, l, art, first, sizes, timed, verdict, why>>
 Ev == Cases[t].events
 
-Init == /\ t \in 1..Len(Cases) /\ l = 1 /\ art = <<>> /\ first = <<>> /\ sizes = <<>>
+Init == /\ t \in 1..Len(Cases) /\ l = 1 /\ art = <<>> /\ first = <<>> /\ sizes = <<>> /\ timed = {}
         /\ verdict = "run" /\ why = <<>>
 
 Observe ==
@@ -40,35 +46,42 @@ Observe ==
      CASE e.ev = "artifact" ->
             IF e.key \in DOMAIN art
             THEN IF art[e.key].digest = e.digest
-                 THEN l' = l + 1 /\ UNCHANGED <<art, first, sizes, verdict, why>>
-                 ELSE /\ verdict' = "rejected" /\ UNCHANGED <<art, first, sizes, l>>
+                 THEN l' = l + 1 /\ UNCHANGED <<art, first, sizes, timed, verdict, why>>
+                 ELSE /\ verdict' = "rejected" /\ UNCHANGED <<art, first, sizes, timed, l>>
                       /\ why' = <<"same-key-different-artifact", e.key, "process", art[e.key].proc, art[e.key].digest,
                                   "process", e.proc, e.digest>>
             ELSE /\ art' = (e.key :> [digest |-> e.digest, proc |-> e.proc]) @@ art
-                 /\ l' = l + 1 /\ UNCHANGED <<first, sizes, verdict, why>>
+                 /\ l' = l + 1 /\ UNCHANGED <<first, sizes, timed, verdict, why>>
        [] e.ev = "execute" ->
             LET k == <<e.proc, e.exe>> IN
             IF k \in DOMAIN first
             THEN IF first[k] = e.digest
-                 THEN l' = l + 1 /\ UNCHANGED <<art, first, sizes, verdict, why>>
-                 ELSE /\ verdict' = "rejected" /\ UNCHANGED <<art, first, sizes, l>>
+                 THEN l' = l + 1 /\ UNCHANGED <<art, first, sizes, timed, verdict, why>>
+                 ELSE /\ verdict' = "rejected" /\ UNCHANGED <<art, first, sizes, timed, l>>
                       /\ why' = <<"executor-changed-by-execution", e.exe, e.nth, first[k], e.digest>>
             ELSE /\ first' = (k :> e.digest) @@ first
-                 /\ l' = l + 1 /\ UNCHANGED <<art, sizes, verdict, why>>
-       [] e.ev = "size" ->
+                 /\ l' = l + 1 /\ UNCHANGED <<art, sizes, timed, verdict, why>>
+       [] e.ev \in {"size", "time"} ->
             /\ sizes' = (<<e.key, e.nth>> :> e.size) @@ sizes
+            /\ timed' = IF e.ev = "time" THEN timed \cup {e.key} ELSE timed
             /\ l' = l + 1 /\ UNCHANGED <<art, first, verdict, why>>
        [] OTHER ->
             /\ verdict' = "rejected" /\ why' = <<"compilation-not-total", e.key, e.digest>>
-            /\ UNCHANGED <<art, first, sizes, l>>
+            /\ UNCHANGED <<art, first, sizes, timed, l>>
 
 \* families whose every consecutive pair of members grows by a factor >= 1.7
 Families == {k[1] : k \in DOMAIN sizes}
 Members(f) == {k[2] : k \in {x \in DOMAIN sizes : x[1] = f}}
+Max(S) == CHOOSE x \in S : \A y \in S : y <= x
 Exponential(f) ==
   LET ms == Members(f)  pairs == {m \in ms : m + 1 \in ms} IN
   /\ pairs # {}
-  /\ \A m \in pairs : sizes[<<f, m + 1>>] * 10 >= sizes[<<f, m>>] * 17
+  /\ IF f \in timed
+     THEN LET top == Max(ms) IN
+          /\ {top - 3, top - 2, top - 1} \subseteq pairs
+          /\ sizes[<<f, top>>] >= 1000
+          /\ \A m \in {top - 3, top - 2, top - 1} : sizes[<<f, m + 1>>] * 10 >= sizes[<<f, m>>] * 17
+     ELSE \A m \in pairs : sizes[<<f, m + 1>>] * 10 >= sizes[<<f, m>>] * 17
 Done == /\ verdict = "run" /\ l = Len(Ev) + 1
         /\ IF \E f \in Families : Exponential(f)
            THEN LET f == CHOOSE f \in Families : Exponential(f) IN
@@ -76,7 +89,7 @@ Done == /\ verdict = "run" /\ l = Len(Ev) + 1
                 /\ why' = <<"super-polynomial-growth-of-the-artifact", f,
                             [m \in Members(f) |-> sizes[<<f, m>>]]>>
            ELSE verdict' = "accepted" /\ why' = <<"deterministic", l - 1>>
-        /\ UNCHANGED <<t, l, art, first, sizes>>
+        /\ UNCHANGED <<t, l, art, first, sizes, timed>>
 
 Next == Observe \/ Done
 Spec == Init /\ [][Next]_vars
